@@ -216,6 +216,10 @@ pub struct Plan {
 }
 
 impl Plan {
+    pub fn with_tag(mut self, t: &str) -> Plan {
+        self.tags.push(t.to_string());
+        self
+    }
     pub fn has_tag(&self, t: &str) -> bool {
         self.tags.iter().any(|x| x == t)
     }
